@@ -12,9 +12,9 @@ Transcribed source (tree under test, after the `fix:` commit recorded in finding
     BufferedIOBaseWrapper.read :134-146 / .seek :148-152        (`World.read`, kind `bio`)
     StreamReaderWrapper.read :178-197 / .seek :199-205          (`World.read`, kind `srw`)
     StreamableSourceWrapper.read :229-231 / .seek :233-237      (kind `ssw`: stacked on
-      StreamReaderWrapper exactly as BufferedIOBaseSource.open does; `World.istep`: stacked on
+      StreamReaderWrapper exactly as BufferedIOBaseSource.open does; `IWorld.step`: stacked on
       PatchedIceCastClient.read :481-494 / .seek :474-479, whose download step
-      `_download_stream` :515-547 (one turn of its loop) is `World.feed`)
+      `_download_stream` :515-547 (one turn of its loop) is `IWorld.fetch` + `IWorld.store`)
 
 Conventions.  Sizes are `Nat`; the Python code uses `int` and the two agree because the
 subtractions that could go negative (`buffer_size - len(buffer)`, `len(buffer) - position`)
@@ -165,26 +165,58 @@ def World.init (size headroom : Nat) (prot : Bool) (S : Bytes) (ks : List Nat) :
 
 /-! ## StreamableSourceWrapper over PatchedIceCastClient (HTTP streams) -/
 
-inductive IOp
-  | feed (blk : Nat) | read (n : Nat) | seek (p : Nat) | protect (b : Bool)
+/-- The download side is a second thread.  Its loop turn has two steps that the consumer
+    can observe separately: `fetch` (wait for room, read at most a block from the
+    response, flag end of stream iff the read came back EMPTY) and `store` (take the lock,
+    add the chunk).  `chunk` is a chunk fetched but not yet stored, `stopped` is
+    `_stop_stream`. -/
+structure IWorld where
+  w : World
+  chunk : Option Bytes
+  stopped : Bool
   deriving DecidableEq, Repr
 
-/-- one turn of `_download_stream`'s loop (no ICY metadata): wait unless a whole block
-    fits, else read at most a block from the response and add it. -/
-def World.feed (w : World) (blk : Nat) : World :=
-  if w.b.fits blk then
-    { b := (w.b.add (w.src.read blk).2).1, src := (w.src.read blk).1 }
-  else w
+inductive IOp
+  | fetch (blk : Nat) | store | feed (blk : Nat) | read (n : Nat) | seek (p : Nat) | protect (b : Bool)
+  deriving DecidableEq, Repr
 
-def World.istep (w : World) : IOp → World × WRes
-  | .feed blk => (w.feed blk, .flag (w.b.fits blk))
-  | .read n => ({ w with b := (w.b.get n).1 }, .data (w.b.get n).2)
-  | .seek p => ({ w with b := (w.b.seek p).1 }, .pos (w.b.seek p).1.pos)
-  | .protect b => ({ w with b := (w.b.setProtected b).1 }, .flag (w.b.setProtected b).2)
+/-- first half of a turn of `_download_stream`'s loop (no ICY metadata); `false` = nothing
+    was read (stream already stopped, a chunk is still waiting to be stored, or no room
+    for a whole block). -/
+def IWorld.fetch (iw : IWorld) (blk : Nat) : IWorld × Bool :=
+  if iw.stopped ∨ iw.chunk.isSome then (iw, false)
+  else if iw.w.b.fits blk then
+    ({ w := { iw.w with src := (iw.w.src.read blk).1 }, chunk := some (iw.w.src.read blk).2,
+       stopped := (iw.w.src.read blk).2.isEmpty }, true)
+  else (iw, false)
 
-def World.irun (w : World) : List IOp → World × List WRes
-  | [] => (w, [])
-  | op :: ops => (((w.istep op).1.irun ops).1, (w.istep op).2 :: ((w.istep op).1.irun ops).2)
+/-- second half: `with self._buffer_lock: self._buffer.add(chunk)` -/
+def IWorld.store (iw : IWorld) : IWorld × Bool :=
+  match iw.chunk with
+  | some d => ({ iw with w := { iw.w with b := (iw.w.b.add d).1 }, chunk := none }, true)
+  | none => (iw, false)
+
+/-- a whole, uninterrupted turn -/
+def IWorld.feed (iw : IWorld) (blk : Nat) : IWorld × Bool :=
+  if (iw.fetch blk).2 then ((iw.fetch blk).1.store.1, true) else (iw, false)
+
+/-- consumer side (`PatchedIceCastClient.read` once it does not have to wait: enough is
+    buffered or the stream is flagged as stopped; `.seek`; the shared buffer's protection) -/
+def IWorld.step (iw : IWorld) : IOp → IWorld × WRes
+  | .fetch blk => ((iw.fetch blk).1, .flag (iw.fetch blk).2)
+  | .store => (iw.store.1, .flag iw.store.2)
+  | .feed blk => ((iw.feed blk).1, .flag (iw.feed blk).2)
+  | .read n => ({ iw with w := { iw.w with b := (iw.w.b.get n).1 } }, .data (iw.w.b.get n).2)
+  | .seek p => ({ iw with w := { iw.w with b := (iw.w.b.seek p).1 } }, .pos (iw.w.b.seek p).1.pos)
+  | .protect b =>
+      ({ iw with w := { iw.w with b := (iw.w.b.setProtected b).1 } }, .flag (iw.w.b.setProtected b).2)
+
+def IWorld.run (iw : IWorld) : List IOp → IWorld × List WRes
+  | [] => (iw, [])
+  | op :: ops => (((iw.step op).1.run ops).1, (iw.step op).2 :: ((iw.step op).1.run ops).2)
+
+def IWorld.init (size headroom : Nat) (prot : Bool) (S : Bytes) (ks : List Nat) : IWorld :=
+  { w := World.init size headroom prot S ks, chunk := none, stopped := false }
 
 /-! ## Deterministic test data shared with the harness -/
 
